@@ -124,6 +124,13 @@ func memShow(sb *strings.Builder, v reflect.Value) {
 		} else {
 			fmt.Fprintf(sb, "(s_%x)", s)
 		}
+	case reflect.Interface:
+		// an error result: printed as the *string the model takes it for
+		if v.IsNil() {
+			sb.WriteString("nil")
+			return
+		}
+		fmt.Fprintf(sb, "(p_0_(s_%x))", v.Interface().(error).Error())
 	case reflect.Ptr:
 		if v.IsNil() {
 			sb.WriteString("nil")
@@ -194,7 +201,14 @@ func memTuple(vals []interface{}) string {
 		if i > 0 {
 			sb.WriteString("_")
 		}
-		memShow(&sb, reflect.ValueOf(a))
+		// an `error` result arrives as a nil interface or as the concrete error: the model takes it for a *string
+		if a == nil {
+			sb.WriteString("nil")
+		} else if e, ok := a.(error); ok {
+			fmt.Fprintf(&sb, "(p_0_(s_%x))", e.Error())
+		} else {
+			memShow(&sb, reflect.ValueOf(a))
+		}
 	}
 	sb.WriteString(")")
 	return sb.String()
@@ -245,6 +259,19 @@ func MemResF64(d uint64, j int) float64 {
 		return -2.25
 	}
 	return 0
+}
+
+// MemErr is the error the instrumented f returns.
+type MemErr string
+
+func (e MemErr) Error() string { return string(e) }
+
+// MemResErr: an `error` result, seen by the model as a *string (nil for the same digests as a pointer result)
+func MemResErr(d uint64, j int) error {
+	if MemNil(d, j, 4) {
+		return nil
+	}
+	return MemErr(MemResStr(d, j))
 }
 
 // MemNil: whether a pointer / slice result is nil for this digest
